@@ -31,6 +31,7 @@ type Exec struct {
 	unit     string
 	bounded  []string
 	forceInline bool
+	topOpts  *evalOpts
 }
 
 type edge struct {
@@ -455,7 +456,7 @@ func (x *Exec) runLoop(fr *frame, li *loopInfo, inc []edge) []edge {
 	pre := sin.clone()
 	fr.preLoop[li] = &pre
 	for i, inv := range lc.Invariants {
-		g := x.evalBoolClause(fr, &sin, inv, &evalOpts{pre: &pre})
+		g := x.evalBoolClause(fr, &sin, inv, x.loopOpts(fr, &pre))
 		x.vc.oblige(&Obligation{Name: fmt.Sprintf("%s.inv%d.entry", loopName, i+1), Kind: "inv-entry", Func: fr.name,
 			Guard: sin.reach, Goal: g, Src: inv.Src, Pos: fmt.Sprintf("%s:%d", inv.File, inv.Line)})
 	}
@@ -474,8 +475,15 @@ func (x *Exec) runLoop(fr *frame, li *loopInfo, inc []edge) []edge {
 	}
 	x.havocLoopMemory(fr, li, lc, &hs)
 	for _, inv := range lc.Invariants {
-		g := x.evalBoolClause(fr, &hs, inv, &evalOpts{pre: &pre})
+		g := x.evalBoolClause(fr, &hs, inv, x.loopOpts(fr, &pre))
 		x.vc.assume(mkImplies(hs.reach, g), "loop invariant "+loopName)
+	}
+	if fr.fc != nil {
+		for _, ul := range fr.fc.Uses {
+			if ul.At == fmt.Sprintf("loop%d", li.ordinal) {
+				x.useLemma(fr, &hs, ul, x.loopOpts(fr, &pre))
+			}
+		}
 	}
 	// 3. run the body from the havocked header
 	st := hs
@@ -506,7 +514,7 @@ func (x *Exec) runLoop(fr *frame, li *loopInfo, inc []edge) []edge {
 				}
 			}
 			for i, inv := range lc.Invariants {
-				g := x.evalBoolClause(fr, &s, inv, &evalOpts{pre: &pre})
+				g := x.evalBoolClause(fr, &s, inv, x.loopOpts(fr, &pre))
 				x.vc.oblige(&Obligation{Name: fmt.Sprintf("%s.inv%d.preserved@%d", loopName, i+1, e.from.Index), Kind: "inv-preserved", Func: fr.name,
 					Guard: s.reach, Goal: g, Src: inv.Src, Pos: fmt.Sprintf("%s:%d", inv.File, inv.Line)})
 			}
@@ -584,7 +592,9 @@ func (x *Exec) unrollLoop(fr *frame, li *loopInfo, lc *LoopContract, inc []edge)
 	loopName := fmt.Sprintf("%s#loop%d", fr.name, li.ordinal)
 	var exits []edge
 	cur := inc
-	for iter := 0; iter < lc.Unroll && len(cur) > 0; iter++ {
+	// the loop header is entered at most Unroll+1 times; the last entry must leave the loop without
+	// reaching a back edge (unwinding assertion)
+	for iter := 0; iter <= lc.Unroll && len(cur) > 0; iter++ {
 		st := x.enterBlock(fr, h, cur)
 		if iter == 0 {
 			pre := st.clone()
@@ -601,27 +611,18 @@ func (x *Exec) unrollLoop(fr *frame, li *loopInfo, lc *LoopContract, inc []edge)
 		}
 	}
 	if len(cur) > 0 {
-		// one more header evaluation: the header may exit without running the body again
-		st := x.enterBlock(fr, h, cur)
-		outs := x.execHeaderOnly(fr, li, st)
 		var still []T
-		for _, e := range outs {
-			if li.body[e.to] {
-				still = append(still, e.st.reach)
-			} else {
-				exits = append(exits, e)
-			}
+		for _, e := range cur {
+			still = append(still, e.st.reach)
 		}
-		if len(still) > 0 {
-			cond := mkOr(still...)
-			if lc.UnrollAssume {
-				x.vc.assume(mkNot(cond), "bounded unrolling of "+loopName)
-				x.bounded = append(x.bounded, fmt.Sprintf("%s unrolled %d times without unwinding assertion", loopName, lc.Unroll))
-			} else {
-				x.vc.oblige(&Obligation{Name: loopName + ".unwind", Kind: "unwind", Func: fr.name,
-					Guard: cond, Goal: tFalse, Src: fmt.Sprintf("unroll %d", lc.Unroll)})
-				x.vc.assume(mkNot(cond), "unwinding assertion of "+loopName)
-			}
+		cond := mkOr(still...)
+		if lc.UnrollAssume {
+			x.vc.assume(mkNot(cond), "bounded unrolling of "+loopName)
+			x.bounded = append(x.bounded, fmt.Sprintf("%s unrolled %d times without unwinding assertion", loopName, lc.Unroll))
+		} else {
+			x.vc.oblige(&Obligation{Name: loopName + ".unwind", Kind: "unwind", Func: fr.name,
+				Guard: cond, Goal: tFalse, Src: fmt.Sprintf("unroll %d", lc.Unroll)})
+			x.vc.assume(mkNot(cond), "unwinding assertion of "+loopName)
 		}
 	}
 	return exits
@@ -824,4 +825,15 @@ func (x *Exec) obligeSafety(fr *frame, st *State, kind string, goal T, in ssa.In
 		Guard: st.reach, Goal: goal, Pos: pos, Src: fmt.Sprintf("%v", in)})
 	// after the check the program continues only if it held
 	x.vc.assume(mkImplies(st.reach, goal), "passed "+kind+" check")
+}
+
+// loopOpts builds the evaluation options for loop invariants: pre() is the loop entry state, old()
+// the function entry state and the function-level ghosts stay visible (top-level function only).
+func (x *Exec) loopOpts(fr *frame, pre *State) *evalOpts {
+	o := &evalOpts{pre: pre, ghost: map[string]Value{}}
+	if fr.top && x.topOpts != nil {
+		o.ghost = x.topOpts.ghost
+		o.old = x.topOpts.old
+	}
+	return o
 }
